@@ -107,7 +107,7 @@ static std::vector<Loc> choose_locations(const Theo::Program &P, const RDbg &R, 
 }
 
 // ---- the search -------------------------------------------------------------------------------------------------------
-struct Node { Theo::VM vm; Model m; int parent; int act; int depth; };
+struct Node { Theo::VM vm; Model m; int parent; int act; int depth; int stopped_site; /* code index of the site the machine is stopped on (it has not moved since), -1 unknown */ };
 
 static void explore(const Case &c, const std::string &prop, vf::Stats &st, size_t maxl, int horizon, size_t max_states) {
   st.add("programs_submitted"); st.add("cases");
@@ -133,7 +133,7 @@ static void explore(const Case &c, const std::string &prop, vf::Stats &st, size_
     std::vector<std::string> h = history(n, last);
     st.violation(key, what + " | history: " + vf::jarr_str(h), cj.substr(0, cj.size() - 1) + ",\"history\":" + vf::jarr_str(h) + "}");
   };
-  { auto n = std::make_unique<Node>(Node{fresh, {0, {}, false}, -1, -1, 0}); fix(n->vm); index[fresh_canon] = 0; nodes.push_back(std::move(n)); frontier.push_back(0); }
+  { auto n = std::make_unique<Node>(Node{fresh, {0, {}, false}, -1, -1, 0, -1}); fix(n->vm); index[fresh_canon] = 0; nodes.push_back(std::move(n)); frontier.push_back(0); }
   // fresh machine observers (C06/C17)
   if ((prop == "C06" || prop == "C17") && (nodes[0]->vm.getCurrentBreak().line != -1 || nodes[0]->vm.getCurrentBreak().file != "none")) viol(0, nullptr, "a new machine reports a current location");
   long long transitions = 0, validated = 0; int maxdepth = 0; std::set<int> stop_positions;
@@ -187,6 +187,11 @@ static void explore(const Case &c, const std::string &prop, vf::Stats &st, size_
         if (en != m.E) { viol(ni, &a, "enabled set has " + std::to_string(en.size()) + " locations, reference " + std::to_string(m.E.size())); continue; }
         if (vm.isSteppingModeEnabled() != m.s) { viol(ni, &a, "stepping mode flag differs"); continue; }
         Theo::BreakPoint cb = vm.getCurrentBreak();
+        if (!site_stop && src.stopped_site >= 0 && (a.t == Act::SETBP || a.t == Act::CLEAR || a.t == Act::STEPMODE)) {
+          // still standing on the site it stopped on: toggling breakpoints or stepping must not change the reported location
+          auto it = P.line_info.find(src.stopped_site);
+          if (cb.file != it->second.file || cb.line != it->second.line) { viol(ni, &a, "still stopped on the site of " + it->second.file + ":" + std::to_string(it->second.line) + " (no execution since the stop) but the current location is now " + cb.file + ":" + std::to_string(cb.line)); continue; }
+        }
         if (site_stop) {
           // the instruction just passed is the site the reference stopped on
           int passed = want.ip - 1; auto it = P.line_info.find(passed);
@@ -213,7 +218,8 @@ static void explore(const Case &c, const std::string &prop, vf::Stats &st, size_
       auto it = index.find(cn);
       if (it == index.end()) {
         if (nodes.size() >= max_states) { st.capped = true; st.add("state_cap_hit"); failed = true; break; }
-        auto n = std::make_unique<Node>(Node{vm, m, ni, (int)ai, src.depth + 1}); fix(n->vm);
+        int stopped = site_stop ? want.ip - 1 : ((a.t == Act::SETBP || a.t == Act::CLEAR || a.t == Act::STEPMODE) ? src.stopped_site : -1);
+        auto n = std::make_unique<Node>(Node{vm, m, ni, (int)ai, src.depth + 1, stopped}); fix(n->vm);
         maxdepth = std::max(maxdepth, n->depth); index[cn] = (int)nodes.size(); frontier.push_back((int)nodes.size()); nodes.push_back(std::move(n));
       } else if (!(nodes[it->second]->m == m)) {
         // two model states map to one real state: the real machine lost information the reference keeps
